@@ -19,8 +19,8 @@ pub enum Confine {
 pub struct FaultPlan {
     pub confine: Confine,
     pub count: usize,
-    /// weights: flip, byte, len, noar, ti, pfx, verb, junk, drop, zero, dup, trunc, tail
-    pub w: [u32; 13],
+    /// weights: flip, byte, len, noar, ti, pfx, verb, junk, drop, zero, dup, trunc, tail, orphan, amp
+    pub w: [u32; 15],
     /// co-schedule PFX=FFFF with a > 64 KiB tail
     pub pfx_tail_pair: bool,
 }
@@ -38,27 +38,44 @@ pub const F_ZERO: usize = 9;
 pub const F_DUP: usize = 10;
 pub const F_TRUNC: usize = 11;
 pub const F_TAIL: usize = 12;
-pub const FAULT_KEYS: [&str; 13] = [
+/// storage headers without a message behind them (a logger that dies right after the header,
+/// again and again): 1, 2, 3 or hundreds to thousands in a row
+pub const F_ORPHAN: usize = 13;
+/// a bulk string field filled with undecodable bytes in just the number that makes a k-fold
+/// expansion of them (replacement characters, escapes) land the decoded length on a 16-bit boundary
+pub const F_AMP: usize = 14;
+pub const FAULT_KEYS: [&str; 15] = [
     "F-FLIP", "F-BYTE", "F-LEN", "F-NOAR", "F-TI", "F-PFX", "F-VERB", "F-JUNK", "F-DROP", "F-ZERO", "F-DUP",
-    "F-TRUNC", "F-TAIL",
+    "F-TRUNC", "F-TAIL", "F-ORPHAN", "F-AMP",
 ];
 
 impl FaultPlan {
+    /// exactly one fault of kind `k`
+    pub fn only(k: usize) -> FaultPlan {
+        let mut w = [0u32; 15];
+        w[k] = 1;
+        FaultPlan { confine: Confine::Payload, count: 1, w, pfx_tail_pair: false }
+    }
     pub fn none() -> FaultPlan {
-        FaultPlan { confine: Confine::Any, count: 0, w: [0; 13], pfx_tail_pair: false }
+        FaultPlan { confine: Confine::Any, count: 0, w: [0; 15], pfx_tail_pair: false }
     }
     /// swarm draw: a random subset of the kinds the confinement allows
     pub fn draw(r: &mut Rng, confine: Confine, storage: bool) -> FaultPlan {
-        let mut w = [0u32; 13];
+        let mut w = [0u32; 15];
         let allowed: &[usize] = match confine {
-            Confine::Payload => &[F_FLIP, F_BYTE, F_NOAR, F_TI, F_PFX, F_VERB, F_JUNK],
-            Confine::InRecord => &[F_FLIP, F_BYTE, F_LEN, F_NOAR, F_TI, F_PFX, F_VERB, F_JUNK],
+            Confine::Payload => &[F_FLIP, F_BYTE, F_NOAR, F_TI, F_PFX, F_VERB, F_JUNK, F_AMP],
+            Confine::InRecord => &[F_FLIP, F_BYTE, F_LEN, F_NOAR, F_TI, F_PFX, F_VERB, F_JUNK, F_AMP],
             Confine::Any => &[
-                F_FLIP, F_BYTE, F_LEN, F_NOAR, F_TI, F_PFX, F_VERB, F_JUNK, F_DROP, F_ZERO, F_DUP, F_TRUNC, F_TAIL,
+                F_FLIP, F_BYTE, F_LEN, F_NOAR, F_TI, F_PFX, F_VERB, F_JUNK, F_DROP, F_ZERO, F_DUP, F_TRUNC, F_TAIL, F_ORPHAN, F_AMP,
             ],
         };
         for k in allowed {
-            if *k == F_JUNK && !storage {
+            // without storage headers junk between records is only sound where nothing relies on
+            // the harness knowing the record boundaries (garbage on a TCP stream, a serial marker)
+            if *k == F_JUNK && !storage && confine != Confine::Any {
+                continue;
+            }
+            if *k == F_ORPHAN && !storage {
                 continue;
             }
             if r.chance(1, 2) {
@@ -71,6 +88,7 @@ impl FaultPlan {
         // rare kinds stay rare so that most runs keep most records intact
         w[F_TAIL] = w[F_TAIL].min(1);
         w[F_TRUNC] = w[F_TRUNC].min(2);
+        w[F_ORPHAN] = w[F_ORPHAN].min(1);
         let count = *r.pick(&[0usize, 1, 1, 1, 2, 2, 3, 4, 6]);
         FaultPlan { confine, count, w, pfx_tail_pair: confine == Confine::Any && r.chance(1, 12) }
     }
@@ -327,6 +345,36 @@ pub fn build_medium(recs: &mut Vec<Rec>, r: &mut Rng, plan: &FaultPlan, st: &mut
                 }
                 recs.insert(at, j);
             }
+            F_ORPHAN => {
+                let at = r.below(recs.len() + 1);
+                let n = match r.below(8) {
+                    0..=3 => 1,
+                    4 => 2 + r.below(3),
+                    5 => 500 + r.below(200),
+                    6 => 2_000,
+                    _ => 12_000,
+                };
+                let mut b = Vec::with_capacity(16 * n);
+                let constant = r.bool();
+                for _ in 0..n {
+                    b.extend_from_slice(b"DLT\x01");
+                    if constant {
+                        b.extend_from_slice(&[0u8; 8]);
+                        b.extend_from_slice(b"ECU\0");
+                    } else {
+                        b.extend(r.bytes(12));
+                    }
+                }
+                st.inc("F-ORPHAN");
+                m.notes.push(format!("F-ORPHAN {} storage header(s) without message before element {}", n, at));
+                for f in in_rec_faults.iter_mut() {
+                    if f.0 >= at {
+                        f.0 += 1;
+                    }
+                }
+                recs.insert(at, Rec { regs: vec![Reg { start: 0, end: b.len(), kind: Region::Junk }], bytes: b, kind: "junk", foreign: false });
+                m.aligned = false;
+            }
             F_DROP | F_ZERO | F_DUP => block_ops.push(k),
             F_TRUNC => trunc = true,
             F_TAIL => tail = true,
@@ -340,6 +388,41 @@ pub fn build_medium(recs: &mut Vec<Rec>, r: &mut Rng, plan: &FaultPlan, st: &mut
                 let rec = &mut recs[ri];
                 let hdr = rec.regs.iter().find(|g| g.kind == Region::Htyp).map(|g| g.start).unwrap_or(0);
                 match k {
+                    F_AMP => {
+                        // the largest value region of the record, if it is a bulk one
+                        let Some(g) = rec.regs.iter().filter(|g| g.kind == Region::Value && g.end - g.start >= 2048).max_by_key(|g| g.end - g.start).cloned() else { continue };
+                        let l = g.end - g.start - 1; // without the terminator
+                        // first feasible (expansion factor, target) pair, starting at a random one
+                        let combos: [(usize, usize); 12] = [
+                            (3, 65_535), (3, 65_536), (2, 65_535), (4, 65_535), (6, 65_535), (3, 65_534), (2, 65_536), (4, 65_536), (3, 32_767), (3, 32_768), (2, 32_768), (6, 65_536),
+                        ];
+                        let off = r.below(combos.len());
+                        let mut found = None;
+                        for i in 0..combos.len() {
+                            let (k_exp, target) = combos[(off + i) % combos.len()];
+                            if target > l && (target - l) % (k_exp - 1) == 0 {
+                                let a = (target - l) / (k_exp - 1);
+                                if a >= 1 && a <= l {
+                                    found = Some((k_exp, target, a));
+                                    break;
+                                }
+                            }
+                        }
+                        let Some((k_exp, target, a)) = found else { continue };
+                        let byte = *r.pick(&[0xffu8, 0x80, 0xe4, 0xc0, 0xfe]);
+                        for x in &mut rec.bytes[g.start..g.start + a] {
+                            *x = byte;
+                        }
+                        // the rest must stay what it was: plain bytes that decode one to one
+                        for x in &mut rec.bytes[g.start + a..g.start + l] {
+                            if *x >= 0x80 || *x == 0 {
+                                *x = b'a';
+                            }
+                        }
+                        st.inc("F-AMP");
+                        in_rec_faults.push((ri, g.start, k as u8));
+                        m.notes.push(format!("F-AMP rec{}: {} x {:02x} in a {}-byte field ({}-fold expansion would give {})", ri, a, byte, l, k_exp, target));
+                    }
                     F_FLIP | F_BYTE => {
                         let Some(g) = pick_region(r, rec, payload_only, None).cloned() else { continue };
                         // keep LEN intact unless allowed to touch it
